@@ -35,10 +35,13 @@ type scriptedGroup struct {
 	applied   [][]byte
 }
 
-func (g *scriptedGroup) RegisterProcessFn(fn raft.ProcessFn) error         { g.processFn = fn; return nil }
-func (g *scriptedGroup) RegisterProcessSnapshotFn(fn raft.ProcessFn) error { g.procSnap = fn; return nil }
-func (g *scriptedGroup) RegisterSnapshotFn(fn raft.SnapshotFn) error       { g.snapFn = fn; return nil }
-func (g *scriptedGroup) LeaderId() uint64                                  { return 1 }
+func (g *scriptedGroup) RegisterProcessFn(fn raft.ProcessFn) error { g.processFn = fn; return nil }
+func (g *scriptedGroup) RegisterProcessSnapshotFn(fn raft.ProcessFn) error {
+	g.procSnap = fn
+	return nil
+}
+func (g *scriptedGroup) RegisterSnapshotFn(fn raft.SnapshotFn) error { g.snapFn = fn; return nil }
+func (g *scriptedGroup) LeaderId() uint64                            { return 1 }
 func (g *scriptedGroup) Propose(ctx context.Context, data []byte) error {
 	g.mu.Lock()
 	g.queue = append(g.queue, append([]byte(nil), data...))
@@ -63,6 +66,7 @@ type PlaceCase struct {
 	D        int    `json:"d"` // datasets created in this run
 	Seed     uint64 `json:"seed"`
 	SelfIsIn bool   `json:"self_is_member"`
+	Churn    []int  `json:"churn,omitempty"` // after each dataset: member that leaves (>0) or joins again (<0)
 }
 
 func genC16(r *simrt.Rand, tier string) json.RawMessage {
@@ -72,6 +76,15 @@ func genC16(r *simrt.Rand, tier string) json.RawMessage {
 		c.R = r.Range(1, 4)
 		c.P = r.Range(24, 64)
 		c.D = r.Range(8, 14)
+	}
+	if r.Bool(0.4) && c.N >= 2 {
+		for d := 0; d < c.D; d++ {
+			m := r.Range(1, c.N)
+			if r.Bool(0.3) {
+				m = -m
+			}
+			c.Churn = append(c.Churn, m)
+		}
 	}
 	b, _ := json.Marshal(c)
 	return b
@@ -142,11 +155,8 @@ func execC16(raw json.RawMessage, wantLog bool) (out Outcome) {
 				out.Harness = err.Error()
 				return
 			}
-			want := c.R
-			if c.N < want {
-				want = c.N
-			}
 			share := map[uint64]int{}
+			churned := false
 			totalParts := 0
 			allSame := true
 			var firstSet string
@@ -179,6 +189,10 @@ func execC16(raw json.RawMessage, wantLog bool) (out Outcome) {
 					out.Violate("C16", "create-failed", "Create(N=%d R=%d P=%d) failed: %v", c.N, c.R, c.P, r.err)
 					return
 				}
+				want := c.R
+				if len(members) < want {
+					want = len(members)
+				}
 				parts := r.ds.Meta().GetPartitions()
 				if len(parts) != c.P {
 					out.Violate("C16", "partition-count", "asked for %d partitions, got %d", c.P, len(parts))
@@ -210,16 +224,36 @@ func execC16(raw json.RawMessage, wantLog bool) (out Outcome) {
 					}
 				}
 				// independence within one dataset: identical node sets on all partitions
-				bits := float64(len(parts)-1) * log2Binom(c.N, want)
+				bits := float64(len(parts)-1) * log2Binom(len(members), want)
 				if len(sets) == 1 && bits >= 60 {
 					out.Violate("C16", "all-partitions-on-the-same-nodes", "N=%d R=%d P=%d: every partition of the dataset got the node set %s (chance under independent placement < 2^-%.0f)", c.N, c.R, c.P, firstSet, bits)
 				}
 				if bits >= 60 {
 					out.Stat("datasets_checked_for_independence", 1)
 				}
+				// membership churn between creates
+				if d < len(c.Churn) {
+					m := c.Churn[d]
+					if m > 0 && members[uint64(m)] && len(members) > 1 {
+						conn.RemoveNode(uint64(m))
+						delete(members, uint64(m))
+						churned = true
+						out.Stat("member_left_between_creates", 1)
+					} else if m < 0 && !members[uint64(-m)] {
+						conn.AddNode(uint64(-m), fmt.Sprintf("node%d:6000", -m))
+						members[uint64(-m)] = true
+						churned = true
+						out.Stat("member_joined_between_creates", 1)
+					}
+					synctest.Wait()
+				}
+			}
+			want := c.R
+			if len(members) < want {
+				want = len(members)
 			}
 			// spread over the whole run
-			if want < c.N && want > 0 {
+			if !churned && want < c.N && want > 0 {
 				pUnused := float64(totalParts) * -math.Log2(1-float64(want)/float64(c.N))
 				if pUnused >= 60+math.Log2(float64(c.N)) {
 					out.Stat("runs_checked_for_member_use", 1)
@@ -305,7 +339,7 @@ func init() {
 		Assumptions: []string{"the local node is not a member, so no partition raft group is started (World III covers that)", "math/rand and map iteration order are seeded by the harness (runtime overlay)"},
 		Real:        []string{"storage.DatasetManager.Create / createDataset", "storage.Allocator.getPartitionsNodeIds", "cluster.Conn", "protobuf codecs", "Badger (partition log stores are created)"},
 		Stub:        []string{"raft.Group (scripted: queued proposals applied by the harness)"},
-		Probes:      []string{"datasets_checked_for_independence", "runs_checked_for_member_use", "runs_checked_for_member_share"},
+		Probes:      []string{"datasets_checked_for_independence", "runs_checked_for_member_use", "runs_checked_for_member_share", "member_left_between_creates", "member_joined_between_creates"},
 		Budget: func(tier string) (int, time.Duration) {
 			if tier == "thorough" {
 				return 40000, 40 * time.Minute
